@@ -6,10 +6,10 @@ Import ListNotations.
 Lemma truthy_eq (v : value) : truthy v = truthy_spec v.
 Proof.
   destruct v as [|b|n|s|l|l]; simpl; try reflexivity.
-  - destruct b; reflexivity.
-  - destruct (f64_eqb (as_f64 n) f64_zero); reflexivity.
-  - destruct s; reflexivity.
-  - destruct l; reflexivity.
+  all: try (destruct b; reflexivity).
+  all: try (destruct (f64_eqb (as_f64 n) f64_zero); reflexivity).
+  all: try (destruct s; reflexivity).
+  all: try (destruct l; reflexivity).
 Qed.
 
 (** the table itself, spelled out *)
